@@ -355,6 +355,31 @@ def load(src):
                     if k == src[2]:
                         return m
         raise ValueError('record not found')
+    if src[0] == 'norm':
+        # a molecule that went through an in-place normaliser (or a chain of them) before it is observed and copied
+        m = smiles(src[1])
+        for meth in src[2].split('+'):
+            getattr(m, meth)()
+        return m
+    if src[0] == 'derived':
+        # objects derived from a molecule: substructure, augmented substructure, union, split part, remapped copy
+        m = smiles(src[1])
+        atoms = list(m)
+        how = src[2]
+        if how == 'sub':
+            return m.substructure(atoms[:max(1, len(atoms) * 2 // 3)])
+        if how == 'aug':
+            return m.augmented_substructure([atoms[len(atoms) // 2]], deep=2)
+        if how == 'union':
+            return m | smiles('CC(=O)[O-].[Na+]')
+        if how == 'split':
+            return m.split()[-1]
+        if how == 'remap':
+            return m.remap({n: n + 7 for n in atoms}, copy=True)
+        if how == 'keep':
+            str(m); m.sssr
+            return m.copy(keep_sssr=True, keep_components=True)
+        raise ValueError(src)
     if src[0] == 'edit':
         # molecule whose dictionaries went through deletions and re-insertions (same keys, other internal layout)
         m = smiles(src[1])
